@@ -78,13 +78,12 @@ def r1(ctx, chk):
     rule = "C07.R1"
     ix = ctx.ix
     chart = module_literal(ctx.repo, "dateparser/parser.py", "date_order_chart")
-    rdo = ix.func("dateparser.parser:resolve_date_order")
-    from .util import dict_with_keys, name_bound_to
-    cl = dict_with_keys(rdo, ["DMY", "YMD"])
-    cl_name = name_bound_to(rdo, cl) if cl is not None else None
-    if cl is None:
-        raise AnalysisError(rule, "resolve_date_order.chart_list not found")
-    chart_list = ast.literal_eval(cl)
+    from .util import date_order_results
+    from ..core.minieval import Unknown
+    try:
+        answers, rdo, _chart = date_order_results(ctx)
+    except Unknown as e_:
+        raise AnalysisError(rule, "resolve_date_order: the answer is computed by something this rule cannot evaluate (%s)" % e_)
     import itertools
     six = {"".join(p) for p in itertools.permutations("DMY")}
     chk.ob(rule, "date_order_chart has exactly the six orders", set(chart) == six, "keys: %s" % sorted(chart),
@@ -94,14 +93,13 @@ def r1(ctx, chk):
         chk.ob(rule, "date_order_chart[%s] == %s" % (k, want), chart[k] == want, "is %r" % chart[k],
                key={"table": "date_order_chart", "construct": k}, file="dateparser/parser.py", function="<module>", line=None)
         wl = [LETTER[c] for c in k]
-        chk.ob(rule, "chart_list[%s] == %s" % (k, wl), chart_list.get(k) == wl, "is %r" % (chart_list.get(k),),
+        got_l, got_s = answers.get(k, (None, None))
+        chk.ob(rule, "chart_list[%s] == %s" % (k, wl), got_l == wl, "resolve_date_order(%r, lst=True) gives %r" % (k, got_l),
                key={"table": "chart_list", "construct": k}, file=rdo.file, function=rdo.qual, line=rdo.node.lineno)
-    # resolve_date_order returns chart_list[order] for lst, else the directive string
-    rets = [n for n in iter_own_nodes(rdo.node) if isinstance(n, ast.Return)]
-    t = " ".join(ast.unparse(rets[-1].value).split()) if rets else ""
-    p = rdo.params()
-    ok = t == "%s[%s] if %s else date_order_chart[%s]" % (cl_name, p[0], p[1], p[0])
-    chk.ob(rule, "resolve_date_order(order, lst) returns chart_list[order] / date_order_chart[order]", ok, "returns %s" % t,
+    # resolve_date_order returns the components for lst, else the directive string of the same order
+    bad = sorted(k for k in chart if answers[k][1] != chart[k])
+    chk.ob(rule, "resolve_date_order(order, lst) returns chart_list[order] / date_order_chart[order]", not bad,
+           "without lst the answer is not date_order_chart[order] for %s" % bad,
            key={"table": "resolve_date_order", "construct": "return"}, file=rdo.file, function=rdo.qual, line=rdo.node.lineno)
     # numeric directive table
     P = ix.cls("dateparser.parser:_parser")
